@@ -24,7 +24,7 @@ import (
 type xlat struct {
 	g    *Gen
 	p    *packages.Package
-	env  map[string]string            // Go identifier -> Lean term
+	env  map[string]string               // Go identifier -> Lean term
 	hook func(e ast.Expr) (string, bool) // caller-specific leaves (index expressions, calls, selectors)
 }
 
